@@ -90,6 +90,19 @@ func (e *Engine) callFn(fr *frame, fn *ssa.Function, args []Value, env []Value, 
 			return e.intrinsic(fr, fn, args, c)
 		}
 	}
+	if key == doKey && fr != nil && fr.fn != nil && fr.fn.Name() == "zzRealDo" {
+		// the uncut (*Client).do, with the library calls inside it cut instead
+		e.realDo++
+		defer func() { e.realDo-- }()
+		e.res.Stubs["real (*Client).do with library cuts"]++
+		return e.callFunction(fn, args, env, deferOf)
+	}
+	if e.realDo > 0 {
+		if rd, ok := e.ld.redirectsDo[key]; ok {
+			e.res.Stubs["redirect "+key+" -> "+rd.String()]++
+			return e.callFunction(rd, args, nil, deferOf)
+		}
+	}
 	if rd, ok := e.ld.redirects[key]; ok {
 		e.res.Stubs["redirect "+key+" -> "+rd.String()]++
 		return e.callFunction(rd, args, nil, deferOf)
